@@ -350,3 +350,159 @@ def packing_offsets(ctx):
         r.check(ok, "%s: running offset" % qn, BL, qn, fn.lineno, "%s running offset" % qn, msg)
     bad = ast.parse("def f(gfs):\n    n = 0\n    for g in gfs:\n        n += g.space.global_dof_count\n    res = _np.zeros(n)\n    pos = 0\n    for g in gfs:\n        c = g.space.global_dof_count\n        pos += c\n        res[pos:pos + c] = g.coefficients\n    return res\n").body[0]
     r.must_fire(any(not ok for _, ok, _ in _pack_checks(bad, "ITEM.space.global_dof_count", "ITEM.coefficients", True)), "offset advanced before the item is stored")
+
+
+# ---------------------------------------------------------------- generalized blocked operators
+
+
+def generalized(ctx):
+    r = ctx.rule("GEN-BLOCKS", "generalized blocked operators: weak forms assembled block by block in place; discrete shape = (sum of first-column heights, sum of first-row widths); blocks of a row must share the height and rows the total width; matmat accumulates block (r, c) applied to its column slice into its row slice; spaces of a row / of the columns must agree", 11)
+    m = ctx.repo.mod(BL)
+    # (1) _assemble
+    fn = m.fn("GeneralizedBlockedOperator._assemble")
+    defs = roles.Defs(fn)
+    loops = sorted([s for s in ast.walk(fn) if isinstance(s, ast.For)], key=lambda l: l.lineno)
+    ok, msg = False, "not a row / element loop nest"
+    ret = [s for s in fn.body if isinstance(s, ast.Return)]
+    if len(loops) == 2 and len(ret) == 1 and isinstance(loops[0].target, ast.Name) and isinstance(loops[1].target, ast.Name):
+        R, E = loops[0].target.id, loops[1].target.id
+        it_ok = _nospace(unparse(loops[0].iter)) == "self._ops" and unparse(loops[1].iter) == R
+        apps = [n for n in ast.walk(loops[0]) if isinstance(n, ast.Call) and isinstance(n.func, ast.Attribute) and n.func.attr == "append" and len(n.args) == 1]
+        inner = [a for a in apps if any(a is x for x in ast.walk(loops[1]))]
+        outer = [a for a in apps if a not in inner]
+        ok = it_ok and len(inner) == 1 and len(outer) == 1 and _nospace(unparse(inner[0].args[0])) == "%s.weak_form()" % E and unparse(outer[0].args[0]) == unparse(inner[0].func.value) \
+            and outer[0].lineno > loops[1].end_lineno and isinstance(ret[0].value, ast.Call) and unparse(ret[0].value.func) == "GeneralizedDiscreteBlockedOperator" and unparse(ret[0].value.args[0]) == unparse(outer[0].func.value)
+        msg = "rows over self._ops / elements of the row: %s; element appended: %s; row appended after its elements to the list handed to GeneralizedDiscreteBlockedOperator: %s" % (
+            it_ok, [unparse(a.args[0]) for a in inner], [unparse(a.args[0]) for a in outer])
+    r.check(ok, "GeneralizedBlockedOperator._assemble", BL, "GeneralizedBlockedOperator._assemble", fn.lineno, "generalized _assemble", msg)
+    # (2) discrete init: shape and sanity checks
+    fn = m.fn("GeneralizedDiscreteBlockedOperator.__init__")
+    ops = arg_names(fn)[1]
+    defs = roles.Defs(fn)
+    S = roles.stores(fn.body, defs)
+    incs = [s for s in S if s.op == "Add=" and isinstance(s.tnode, ast.Subscript) and len(s.loops) == 1 and not s.guards]
+    got = {}
+    for s in incs:
+        l = s.loops[0]
+        if isinstance(l.target, ast.Name) and isinstance(s.tnode.slice, ast.Constant):
+            got[s.tnode.slice.value] = (_nospace(unparse(l.iter)), _nospace(unparse(s.vnode)).replace(l.target.id, "‹x›"))
+    want = {1: ("%s[0]" % ops, "‹x›.shape[1]"), 0: (ops, "‹x›[0].shape[0]")}
+    r.check(got == want, "discrete shape", BL, "GeneralizedDiscreteBlockedOperator.__init__", fn.lineno, "generalized discrete shape", "shape components are accumulated as %s, expected %s" % (got, want))
+    chk = [l for l in fn.body if isinstance(l, ast.For) and any(isinstance(x, ast.Raise) for x in ast.walk(l))]
+    if len(chk) != 1 or not isinstance(chk[0].target, ast.Name):
+        raise AnalysisError("GeneralizedDiscreteBlockedOperator.__init__: sanity-check loop not found")
+    row = chk[0].target.id
+    inner = [x for x in chk[0].body if isinstance(x, ast.For)]
+    if len(inner) != 1 or not isinstance(inner[0].target, ast.Name) or unparse(inner[0].iter) != row:
+        raise AnalysisError("GeneralizedDiscreteBlockedOperator.__init__: sanity-check loop does not run over the elements of each row")
+    e = inner[0].target.id
+    names = {st.targets[0].id: _nospace(unparse(st.value)) for st in chk[0].body if isinstance(st, ast.Assign) and isinstance(st.targets[0], ast.Name)}
+    rd = [n for n, v in names.items() if v == "%s[0].shape[0]" % row]
+    for same in (True, False):
+        env = {"%s.shape[0]" % e: 5}
+        for n in rd:
+            env[n] = 5 if same else 6
+        effs = dispatch.effects(inner[0].body, env, "GeneralizedDiscreteBlockedOperator.__init__", pinned=tuple(rd))
+        raised = any(x[0] == "raise" for x in effs)
+        adds = [x for x in effs if x[0] == "aug" and x[2] == "Add" and _nospace(x[3]) == "%s.shape[1]" % e]
+        r.check(raised != same and (not same or len(adds) == 1), "row height %s" % ("agrees" if same else "differs"), BL, "GeneralizedDiscreteBlockedOperator.__init__", inner[0].lineno, "generalized discrete row-height check",
+                "a block whose height %s that of the first block of its row is %s; widths accumulated: %s" % ("equals" if same else "differs from", "rejected" if raised else "accepted", [x[1:] for x in adds]))
+    after = [st for st in chk[0].body if isinstance(st, ast.If) and st.lineno > inner[0].lineno]
+    okw = False
+    if len(after) == 1:
+        cd = [x[1] for x in dispatch.effects(inner[0].body, {"%s.shape[0]" % e: 5, **{n: 5 for n in rd}}, "x", pinned=tuple(rd)) if x[0] == "aug"]
+        if len(cd) == 1:
+            t = {}
+            for same in (True, False):
+                t[same] = any(x[0] == "raise" for x in dispatch.effects(after, {cd[0]: 9, "shape[1]": 9 if same else 8, "shape": (3, 9 if same else 8)}, "x"))
+            okw = t == {True: False, False: True}
+    r.check(okw, "row width check", BL, "GeneralizedDiscreteBlockedOperator.__init__", chk[0].lineno, "generalized discrete row-width check", "a row whose total width differs from the first row's is not rejected (or equal widths are)")
+    # (3) matmat
+    fn = m.fn("GeneralizedDiscreteBlockedOperator._matmat")
+    X = arg_names(fn)[1]
+    defs = roles.Defs(fn)
+    S = roles.stores(fn.body, defs)
+    acc = [s for s in S if isinstance(s.tnode, ast.Subscript) and len(s.loops) == 2]
+    ok, msg = False, "no single accumulation inside the row / element loop nest"
+    rets = [s for s in S if s.op == "return" and isinstance(s.vnode, ast.Name)]
+    if len(acc) == 1 and acc[0].op == "Add=" and not acc[0].guards and len(rets) == 1:
+        a = acc[0]
+        lR, lE = a.loops
+        if isinstance(lR.target, ast.Name) and isinstance(lE.target, ast.Name) and _nospace(unparse(lR.iter)) == "self._operators" and unparse(lE.iter) == lR.target.id:
+            Rw, El = lR.target.id, lE.target.id
+            O = rets[0].vnode.id
+            ex = lambda src, line, **kw: roles.expect(src, defs, line, **kw)
+            rc = [s for s in S if s.op == "Add=" and isinstance(s.tnode, ast.Name) and s.loops == (lR,) and not s.guards]
+            cc = [s for s in S if s.op == "Add=" and isinstance(s.tnode, ast.Name) and s.loops == (lR, lE) and not s.guards]
+            if len(rc) == 1 and len(cc) == 1:
+                RC, CC = rc[0].target, cc[0].target
+                h = ex("ROW[0].shape[0]", a.node.lineno, ROW=Rw)
+                okh = rc[0].value == h
+                okc = cc[0].value == ex("E.shape[1]", cc[0].node.lineno, E=El)
+                tgt = a.target == ex("O[RC:RC + ROW[0].shape[0], :]", a.node.lineno, O=O, RC=RC, ROW=Rw)
+                val = roles.canon(a.vnode, defs, commutative_mult=False).replace(" ", "") if isinstance(a.vnode, ast.BinOp) else ""
+                vok = isinstance(a.vnode, ast.BinOp) and isinstance(a.vnode.op, ast.MatMult) and unparse(a.vnode.left) == El and roles.canon(a.vnode.right, defs, lv=True).replace(" ", "") == ex("X[CC:CC + E.shape[1], :]", a.node.lineno, X=X, CC=CC, E=El)
+                rc0 = any(isinstance(st, ast.Assign) and unparse(st.targets[0]) == RC and isinstance(st.value, ast.Constant) and st.value.value == 0 and st.lineno < lR.lineno for st in fn.body)
+                cc0 = [s for s in S if s.op == "=" and s.target == CC and s.value == "0" and s.loops == (lR,) and s.node.lineno < lE.lineno]
+                order = cc[0].node.lineno > a.node.lineno and rc[0].node.lineno > lE.end_lineno
+                ok = okh and okc and tgt and vok and rc0 and len(cc0) == 1 and order
+                msg = "row offset += height of the row: %s; column offset += width of the block: %s; target rows [row offset, + height): %s; value block @ x[column slice]: %s; offsets from 0 / reset per row: %s / %s; advanced after use: %s" % (okh, okc, tgt, vok, rc0, len(cc0) == 1, order)
+    r.check(ok, "GeneralizedDiscreteBlockedOperator._matmat", BL, "GeneralizedDiscreteBlockedOperator._matmat", fn.lineno, "generalized discrete matmat", msg)
+    # (4) to_dense
+    fn = m.fn("GeneralizedDiscreteBlockedOperator.to_dense")
+    ret = [s for s in fn.body if isinstance(s, ast.Return)]
+    l = [s for s in fn.body if isinstance(s, ast.For)]
+    okd = False
+    if len(ret) == 1 and len(l) == 1 and isinstance(ret[0].value, ast.Call) and unparse(ret[0].value.func).split(".")[-1] == "block" and isinstance(l[0].target, ast.Name) and _nospace(unparse(l[0].iter)) == "self._operators":
+        rows = unparse(ret[0].value.args[0])
+        apps = [n for n in ast.walk(l[0]) if isinstance(n, ast.Call) and unparse(n.func) == rows + ".append" and len(n.args) == 1]
+        if len(apps) == 1 and isinstance(apps[0].args[0], ast.ListComp):
+            lc = apps[0].args[0]
+            g = lc.generators[0]
+            okd = len(lc.generators) == 1 and not g.ifs and unparse(g.iter) == l[0].target.id and isinstance(g.target, ast.Name) and _nospace(unparse(lc.elt)) == "%s.to_dense()" % g.target.id
+    r.check(okd, "GeneralizedDiscreteBlockedOperator.to_dense", BL, "GeneralizedDiscreteBlockedOperator.to_dense", fn.lineno, "generalized discrete to_dense", "to_dense is not block([[op.to_dense() for op in row] for row in self._operators])")
+    # (5) space agreement in the continuous constructor
+    fn = m.fn("GeneralizedBlockedOperator.__init__")
+    rows = [l for l in ast.walk(fn) if isinstance(l, ast.For) and _nospace(unparse(l.iter)) == "self._ops" and isinstance(l.target, ast.Name)]
+    if len(rows) != 1:
+        raise AnalysisError("GeneralizedBlockedOperator.__init__: loop over self._ops not found")
+    lr = rows[0]
+    rw = lr.target.id
+    le = [x for x in lr.body if isinstance(x, ast.For) and unparse(x.iter) == rw and isinstance(x.target, ast.Name)]
+    if len(le) != 1:
+        raise AnalysisError("GeneralizedBlockedOperator.__init__: loop over the elements of a row not found")
+    el = le[0].target.id
+    firsts = {st.targets[0].id: _nospace(unparse(st.value)) for st in lr.body if isinstance(st, ast.Assign) and isinstance(st.targets[0], ast.Name)}
+    rs = [n for n, v in firsts.items() if v == "%s[0].range_spaces" % rw]
+    ds = [n for n, v in firsts.items() if v == "%s[0].dual_to_range_spaces" % rw]
+    if len(rs) != 1 or len(ds) != 1:
+        raise AnalysisError("GeneralizedBlockedOperator.__init__: the row's reference range / dual spaces are not taken from its first block")
+    for name, bad in (("all agree", None), ("range spaces differ", "range_spaces"), ("dual spaces differ", "dual_to_range_spaces")):
+        env = {rs[0]: "R", ds[0]: "D", "%s.range_spaces" % el: "R2" if bad == "range_spaces" else "R", "%s.dual_to_range_spaces" % el: "D2" if bad == "dual_to_range_spaces" else "D"}
+        effs = dispatch.effects(le[0].body, env, "GeneralizedBlockedOperator.__init__")
+        raised = any(x[0] == "raise" for x in effs)
+        ext = [x for x in effs if x[0] == "call" and ".extend(%s.domain_spaces)" % el in _nospace(x[1])]
+        okx = (raised and not ext) if bad else (not raised and len(ext) == 1)
+        r.check(okx, "row blocks: " + name, BL, "GeneralizedBlockedOperator.__init__", le[0].lineno, "generalized constructor (%s)" % name,
+                "a block whose %s: rejected %s; its domain spaces collected %d time(s)" % ("spaces agree with the row" if not bad else name, raised, len(ext)))
+    # rows must have the same domain spaces as the first row
+    tail = [st for st in lr.body if isinstance(st, ast.If) and st.lineno > le[0].lineno]
+    dom = [n.func.value.id for n in ast.walk(le[0]) if isinstance(n, ast.Call) and isinstance(n.func, ast.Attribute) and n.func.attr == "extend" and isinstance(n.func.value, ast.Name)
+           and _nospace(unparse(n.args[0])) == "%s.domain_spaces" % el]
+    okdom = False
+    if len(tail) == 1 and len(dom) == 1:
+        cmp_ = [n for n in ast.walk(tail[0]) if isinstance(n, ast.Compare) and dom[0] in (unparse(n.left), unparse(n.comparators[0]))]
+        if len(cmp_) == 1:
+            other = unparse(cmp_[0].comparators[0]) if unparse(cmp_[0].left) == dom[0] else unparse(cmp_[0].left)
+            t = {}
+            for same in (True, False):
+                effs = dispatch.effects(tail, {other: "D", dom[0]: "D" if same else "D2"}, "GeneralizedBlockedOperator.__init__")
+                t[same] = any(x[0] == "raise" for x in effs)
+            first = dispatch.effects(tail, {other: [], dom[0]: "D"}, "GeneralizedBlockedOperator.__init__")
+            okdom = t == {True: False, False: True} and any(x[0] == "set" and x[1] == other for x in first) and not any(x[0] == "raise" for x in first)
+    r.check(okdom, "rows: domain spaces", BL, "GeneralizedBlockedOperator.__init__", lr.lineno, "generalized constructor (domain spaces of the rows)",
+            "a row whose collected domain spaces differ from the first row's is not rejected (or an agreeing row is), or the first row does not set the reference")
+    bad = ast.parse("def f(self, other):\n    rc = 0\n    out = _np.zeros(3)\n    for row in self._operators:\n        cc = 0\n        for e in row:\n            out[rc:rc + row[0].shape[0], :] += e @ other[cc:cc + e.shape[0], :]\n            cc += e.shape[1]\n        rc += row[0].shape[0]\n    return out\n").body[0]
+    d2 = roles.Defs(bad)
+    a = [s for s in roles.stores(bad.body, d2) if isinstance(s.tnode, ast.Subscript)][0]
+    r.must_fire(roles.canon(a.vnode.right, d2, lv=True).replace(" ", "") != roles.expect("X[CC:CC + E.shape[1], :]", d2, a.node.lineno, X="other", CC="cc", E="e"), "column slice cut with the block's height")
